@@ -163,7 +163,7 @@ Qed.
 
 Lemma join_agree on_a on_b jt a b : join_causes on_a on_b jt a b = [] -> forall nm nm', sem_join nm on_a on_b jt a b = sem_join nm' on_a on_b jt a b.
 Proof.
-  intros H nm nm'. unfold join_causes in H. apply app_eq_nil in H. destruct H as [H _]. apply if_nil in H.
+  intros H nm nm'. unfold join_causes in H. apply if_nil in H.
   assert (forall ra rb, In ra (rows a) -> In rb (rows b) ->
             keys_match nm (key_of (cols a) on_a ra) (key_of (cols b) on_b rb) = keys_match nm' (key_of (cols a) on_a ra) (key_of (cols b) on_b rb)) as K.
   { intros ra rb Ia Ib. apply keys_match_agree. rewrite !key_null.
